@@ -34,7 +34,8 @@ Live == l <= Len(T)
 
 Consume == l' = l + 1 /\ UNCHANGED tid
 
-TrTick == Live /\ E.ev = "Tick" /\ Advance(E.now) /\ Consume /\ UNCHANGED open
+\* (the clock belongs to the driver: it advances, or - Limiter!SetBack - is set back)
+TrTick == Live /\ E.ev = "Tick" /\ (Advance(E.now) \/ SetBackTo(E.now)) /\ Consume /\ UNCHANGED open
 
 TrArrive ==
     /\ Live /\ E.ev = "Arrive" /\ Arrive(E.t, E.cond) /\ E.ts = now
